@@ -17,7 +17,7 @@ Property predicate (implementation tokens only): `j1 = j2` resp. `h1 = h2 ∧ n 
 first pass and drops nothing.
 -/
 namespace MosnVerif.Drive.C19
-open MosnVerif.Drive MosnVerif.Model MosnVerif.Model.ConfigCodec
+open MosnVerif.Drive MosnVerif.Model MosnVerif.Model.ConfigCodec MosnVerif.Model.GoDuration
 
 /-- stable insertion; a later duplicate key replaces the earlier one (Go maps) -/
 def ins (kv : String × Json) : List (String × Json) → List (String × Json)
